@@ -157,3 +157,33 @@ Definition try_swap (p_new : program) (cur : cprog * mstate) : cprog * mstate :=
   | Some cp2 => match hot_swap (fst cur) cp2 (snd cur) with Some m2 => (cp2, m2) | None => cur end
   | None => cur
   end.
+
+(* ---------- C07: voice programs and insert/delete edits ---------- *)
+(* the skeleton children an expression publishes (independent of where it is compiled) *)
+Definition expr_skel (fe : cenv) (e : expr) : list skel :=
+  match compile_expr fe e (None, 0%N) with Some (_, ss, _) => ss | None => [] end.
+
+Definition voice_skels (p : program) : list (list skel) :=
+  match compile_funs (fun _ => None) (p_funs p) with
+  | Some fe => map (expr_skel fe) (p_outs p)
+  | None => []
+  end.
+
+(* the skeleton of voice j, when the voice publishes exactly one child (e.g. one stateful call) *)
+Definition voice_skel (p : program) (j : nat) : option skel :=
+  match nth_error (voice_skels p) j with Some [c] => Some c | _ => None end.
+
+(* a voice program: dsp has no lets, every output is a closed voice publishing exactly one skeleton child;
+   the children of the published skeleton are then exactly the voices' skeletons, in order *)
+Definition voice_prog (p : program) : bool :=
+  match p_lets p with
+  | [] => forallb (closed_voice p) (p_outs p) &&
+          forallb (fun ss => Nat.eqb (length ss) 1) (voice_skels p)
+  | _ => false
+  end.
+
+(* l1 is obtained from l2 by deleting elements *)
+Inductive sublist {A : Type} : list A -> list A -> Prop :=
+| sl_nil : sublist [] []
+| sl_skip : forall l1 x l2, sublist l1 l2 -> sublist l1 (x :: l2)
+| sl_keep : forall x l1 l2, sublist l1 l2 -> sublist (x :: l1) (x :: l2).
